@@ -1989,7 +1989,17 @@ impl Compiler {
                 let result = self.compile_node(expression, ctx.with_fixed_register_or_any())?;
                 let expression_register = result.unwrap(self)?;
                 self.compile_export_iterable(expression_register)?;
-                Ok(result)
+
+                match ctx.result_register {
+                    ResultRegister::None => {
+                        // The register was only needed for exporting the expression's entries
+                        if result.is_temporary {
+                            self.pop_register()?;
+                        }
+                        Ok(CompileNodeOutput::none())
+                    }
+                    _ => Ok(result),
+                }
             }
         }
     }
